@@ -769,17 +769,19 @@ func DelClient(c Client) {
 	}
 	delete(g.clients, c.Id())
 	g.timestamp = time.Now()
-	clients := g.getClientsUnlocked(nil)
+	// announce the departure with the lock held, like AddClient does
+	// for arrivals: a client that joins with the same id must not be
+	// announced first.
+	for _, cc := range g.clients {
+		cc.PushClient(
+			g.Name(), "delete", c.Id(), c.Username(), nil, nil,
+		)
+	}
 	// must be called locked, and before any later join is evaluated
 	autoLockKick(g)
 	g.mu.Unlock()
 
 	c.Joined(g.Name(), "leave")
-	for _, cc := range clients {
-		cc.PushClient(
-			g.Name(), "delete", c.Id(), c.Username(), nil, nil,
-		)
-	}
 }
 
 func (g *Group) GetClients(except Client) []Client {
